@@ -183,6 +183,7 @@ def check(ctx):
     ctx.anchor("panic sources inventoried in the hand-written parser", nsites, 20)
 
     check_case(ctx, A)
+    check_grammar_case(ctx, G)
     check_overwrite(ctx, P)
     check_tables(ctx, P)
     check_continuation(ctx, P)
@@ -325,6 +326,36 @@ def check_case(ctx, A):
                "identifier text is compared with %r %s: a file spelling the keyword in another case is not recognised" % (
                    lit, "without case normalisation" if not c["norm"] else "after %s-casing" % c["norm"]), c["fn"].loc(c["b"]))
     ctx.anchor("keyword comparisons on identifier text", n, 40)
+
+
+CASE_SENSITIVE_OK = {"0x": "the hexadecimal prefix is lower-case in the GSD specification"}
+
+
+def check_grammar_case(ctx, G):
+    """e.case (grammar side): keywords matched by the grammar itself must be case-insensitive literals (^"...")"""
+    n = 0
+
+    def walk(e, acc):
+        if isinstance(e, dict):
+            if e.get("k") in ("str", "insens") and isinstance(e.get("v"), str):
+                acc.append((e["k"], e["v"]))
+            for v in e.values():
+                walk(v, acc)
+        elif isinstance(e, list):
+            for v in e:
+                walk(v, acc)
+    for name, r in sorted(G.rules.items()):
+        acc = []
+        walk(r["expr"], acc)
+        for k, v in acc:
+            if not any(c.isalpha() for c in v):
+                continue
+            n += 1
+            ok = k == "insens" or v in CASE_SENSITIVE_OK
+            ctx.ob("e.case", "grammar|%s|%s" % (name, v.lower()), ok,
+                   "grammar rule `%s` matches the literal %r case-sensitively: a file spelling it in another case is rejected or mis-parsed" % (name, v),
+                   "gsd-parser/src/gsd.pest (%s)" % name)
+    ctx.anchor("alphabetic literals in the grammar", n, 20)
 
 
 def check_continuation(ctx, P):
